@@ -108,5 +108,15 @@ pub fn run() -> Value {
         guard("CharacterData::parse_float", String::new(), || { let _ = cd.parse_float(); }, &mut panics, &mut n);
         guard("CharacterData::cmp", String::new(), || { let _ = cd.partial_cmp(&CharacterData::Float(f64::NAN)); }, &mut panics, &mut n);
     }
+    // the interpretation functions on texts with multi-byte characters at every small offset, empty and prefix-only texts
+    for s in ["", "0", "0x", "0X", "0b", "0B", "00", "+", "-", "0x\u{e9}", "5\u{b0}C", "1\u{b5}s", "3\u{20ac}", "0\u{d7}10", "\u{ff11}", "\u{ff11}\u{ff10}", "\u{20ac}5", "\u{e9}", "0\u{e9}", "0b\u{e9}",
+              "\u{1f600}", "1e\u{e9}", "t\u{e9}", "0x1\u{e9}", "\u{0}", "1_0", " 1", "1 ", "0x-1", "0b+1", "0+7", "18446744073709551616", "-9223372036854775809", "1e999", "-1e999", "0x10000000000000000"] {
+        let cd = CharacterData::String(s.to_string());
+        guard("CharacterData::parse_integer(String)", format!("{s:?}"), || { let _ = (cd.parse_integer::<u8>(), cd.parse_integer::<i8>(), cd.parse_integer::<u64>(), cd.parse_integer::<i64>(), cd.parse_integer::<u128>(), cd.parse_integer::<usize>()); }, &mut panics, &mut n);
+        guard("CharacterData::parse_float(String)", format!("{s:?}"), || { let _ = cd.parse_float(); }, &mut panics, &mut n);
+        guard("CharacterData::parse_bool(String)", format!("{s:?}"), || { let _ = cd.parse_bool(); }, &mut panics, &mut n);
+        guard("CharacterData::Display(String)", format!("{s:?}"), || { let _ = cd.to_string(); }, &mut panics, &mut n);
+        guard("CharacterData::string_value", format!("{s:?}"), || { let _ = (cd.string_value(), cd.enum_value(), cd.unsigned_integer_value(), cd.float_value()); }, &mut panics, &mut n);
+    }
     json!({"calls": n, "panics": panics})
 }
